@@ -485,6 +485,8 @@ int cs_std_measure(const cs_scenario *sc, int k, cs_c Mf[][NS])
 		    cs_c *m = &Mf[f][r * v->cols + c];
 		    double sig = sqrt(sc->sigma_nf * sc->sigma_nf +
 			    sc->sigma_tr * sc->sigma_tr * creal(*m * conj(*m)));
+		    if (sc->sigma_fscale[f] != 0.0)
+			sig *= sc->sigma_fscale[f];
 		    if (sc->gauss_real != 0) {
 			uint64_t stream = 20000 + (uint64_t)sc->gauss_real *
 			    64 + (uint64_t)st->id;
@@ -492,7 +494,9 @@ int cs_std_measure(const cs_scenario *sc, int k, cs_c Mf[][NS])
 			*m += sig * M_SQRT1_2 * (vf_gauss(stream, 2 * idx) +
 				I * vf_gauss(stream, 2 * idx + 1));
 		    }
-		    if (sc->displace_id != 0 && sc->displace_id == st->id)
+		    if (sc->displace_id != 0 && sc->displace_id == st->id &&
+			    (sc->displace_findex1 == 0 ||
+			     sc->displace_findex1 == f + 1))
 			*m += sc->displace_sigmas * sig *
 			    (0.6 + 0.8 * I) * ((r + c) & 1 ? -1.0 : 1.0);
 		}
